@@ -518,6 +518,15 @@ pub struct Key {
     pub key: Box<dyn SigningKey>,
     pub dnskey: DNSKEY,
     pub tag: u16,
+    /// the private key as PKCS#8 DER (a `DnssecSigner` takes ownership of its signing key)
+    pub pkcs8: Vec<u8>,
+}
+
+impl Key {
+    /// a fresh signing key through the generic loader `signing_key_from_der`
+    pub fn load(&self) -> Box<dyn SigningKey> {
+        hickory_proto::dnssec::crypto::signing_key_from_der(&rustls_pki_types::PrivateKeyDer::Pkcs8(PrivatePkcs8KeyDer::from(self.pkcs8.clone())), self.alg).expect("signing_key_from_der")
+    }
 }
 
 const RSA_PK8: &[u8] = include_bytes!("/repo/crates/proto/tests/test-data/rsa-2048-private-key-1.pk8");
@@ -525,28 +534,317 @@ const RSA_PK8: &[u8] = include_bytes!("/repo/crates/proto/tests/test-data/rsa-20
 pub fn sign_keys() -> &'static Vec<Key> {
     static K: OnceLock<Vec<Key>> = OnceLock::new();
     K.get_or_init(|| {
-        let mut v: Vec<(Algorithm, Box<dyn SigningKey>)> = vec![];
+        let mut v: Vec<(Algorithm, Box<dyn SigningKey>, Vec<u8>)> = vec![];
         let pk = Ed25519SigningKey::generate_pkcs8().expect("ed25519");
-        v.push((Algorithm::ED25519, Box::new(Ed25519SigningKey::from_pkcs8(&pk).expect("ed25519"))));
+        v.push((Algorithm::ED25519, Box::new(Ed25519SigningKey::from_pkcs8(&pk).expect("ed25519")), pk.secret_pkcs8_der().to_vec()));
         for alg in [Algorithm::ECDSAP256SHA256, Algorithm::ECDSAP384SHA384] {
             let pk = EcdsaSigningKey::generate_pkcs8(alg).expect("ecdsa");
-            v.push((alg, Box::new(EcdsaSigningKey::from_pkcs8(&pk, alg).expect("ecdsa"))));
+            v.push((alg, Box::new(EcdsaSigningKey::from_pkcs8(&pk, alg).expect("ecdsa")), pk.secret_pkcs8_der().to_vec()));
         }
         for alg in [Algorithm::RSASHA256, Algorithm::RSASHA512] {
             let k = RsaSigningKey::from_pkcs8(&PrivatePkcs8KeyDer::from(RSA_PK8), alg).expect("rsa");
-            v.push((alg, Box::new(k)));
+            v.push((alg, Box::new(k), RSA_PK8.to_vec()));
         }
         v.into_iter()
-            .map(|(alg, key)| {
+            .map(|(alg, key, pkcs8)| {
                 let dnskey = DNSKEY::from_key(&key.to_public_key().expect("public key"));
                 let tag = dnskey.calculate_key_tag().expect("tag");
-                Key { alg, key, dnskey, tag }
+                Key { alg, key, dnskey, tag, pkcs8 }
             })
             .collect()
     })
 }
 
-// ------------------------------------------------------------------ exec
+/// `bs KEYIDX DURATION <case args>` — the built-in signer entry point (implementation only):
+/// `RecordSet` → `DnssecSigner::new` → `RRSIG::from_rrset` (`SigInput::from_rrset`, `TBS::from_input`,
+/// `DnssecSigner::sign`).  The RRSIG fields must be the ones RFC 4034 §3.1 prescribes for this RRset and key, the
+/// signature must verify (ring) over the *reference* signed data with these fields, and through
+/// `DNSKEY::verify_rrsig` with the records in either order.  The case's INC is the inception; its ALG, LABELS,
+/// ORIGTTL, EXP, TAG fields are ignored (the signer computes them).
+fn exec_builtin_signer(t: &[&str]) -> Option<Out> {
+    use hickory_proto::dnssec::DnssecSigner;
+    use hickory_proto::rr::RecordSet;
+    let [_, ki, dur, args @ ..] = t else { return None };
+    let ki: usize = ki.parse().ok()?;
+    let dur: u32 = dur.parse().ok()?;
+    let c = Case::parse(args)?;
+    let key = sign_keys().get(ki % sign_keys().len())?;
+    let line = format!("bs {ki} {dur} {}", c.args()?);
+    let name = c.name.to_name()?;
+    let class = DNSClass::from(c.cls);
+    let signer_name = c.signer.to_name()?;
+    let mut fails: Vec<(String, String)> = vec![];
+    let mut stats = vec![];
+    // the zone-store representation of the RRset
+    let mut set = RecordSet::new(name.clone(), RecordType::from(c.tc), 0);
+    let mine: Vec<&Rec> = c.rrset();
+    for r in &mine {
+        let rec = r.to_record()?;
+        if rec.name.is_fqdn() != name.is_fqdn() {
+            continue;
+        }
+        set.insert(rec, 0);
+    }
+    let held: Vec<Record> = set.records_without_rrsigs().cloned().collect();
+    if held.is_empty() {
+        return Some(Out { line, out: "~".into(), fails, stats: vec!["bs.empty-rrset".into()], nontrivial: false });
+    }
+    // which of my records the set holds (exact wire RDATA)
+    let mut kept: Vec<Rec> = vec![];
+    for h in &held {
+        let hk = real_key(&h.data);
+        if let Some(r) = mine.iter().find(|r| r.ttl == h.ttl && r.rd.to_rdata(r.rtype).map(|d| real_key(&d) == hk).unwrap_or(false)) {
+            kept.push((*r).clone());
+        } else {
+            return Some(Out { line, out: "~".into(), fails, stats: vec!["bs.unmatched-record".into()], nontrivial: false });
+        }
+    }
+    let signer = DnssecSigner::new(key.dnskey.clone(), key.load(), signer_name.clone(), std::time::Duration::from_secs(dur as u64));
+    if signer.calculate_key_tag().ok() != Some(key.tag) || signer.to_dnskey() != key.dnskey || signer.dnskey() != &key.dnskey || signer.signer_name() != &signer_name || signer.sig_duration().as_secs() != dur as u64 || !signer.is_zone_signing_key() || signer.key().algorithm() != key.alg || signer.test_key().is_err() {
+        fails.push(("DnssecSigner accessors disagree with what it was built from".into(), String::new()));
+    }
+    let inception = time::OffsetDateTime::from_unix_timestamp(c.inc as i64).ok()?;
+    let rrsig = match RRSIG::from_rrset(&set, class, inception, &signer) {
+        Ok(r) => r,
+        Err(_) => {
+            let big = c.ref_signed_data().map(|b| b.len() > 65535).unwrap_or(true);
+            if !big {
+                fails.push(("RRSIG::from_rrset failed on a well-formed RRset".into(), String::new()));
+            }
+            return Some(Out { line, out: "~".into(), fails, stats: vec!["bs.error".into()], nontrivial: false });
+        }
+    };
+    let inp = rrsig.input().clone();
+    // what RFC 4034 §3.1 prescribes, computed here
+    let mut want = c.clone();
+    want.recs = kept.clone();
+    want.alg = u8::from(key.alg);
+    want.labels = c.owner_label_count() as u8;
+    want.ottl = set.ttl();
+    want.exp = c.inc.wrapping_add(dur);
+    want.tag = key.tag;
+    let got_fields = (u16::from(inp.type_covered), u8::from(inp.algorithm), inp.num_labels, inp.original_ttl, inp.sig_expiration.get(), inp.sig_inception.get(), inp.key_tag);
+    let want_fields = (want.tc, want.alg, want.labels, want.ottl, want.exp, want.inc, want.tag);
+    if got_fields != want_fields || inp.signer_name != signer_name {
+        fails.push((format!("the built-in signer's RRSIG fields {got_fields:?} differ from RFC 4034 §3.1 {want_fields:?}"), String::new()));
+    }
+    if !kept.iter().any(|r| r.ttl == want.ottl) {
+        fails.push(("the Original TTL is not the TTL of any record of the RRset".into(), String::new()));
+    }
+    match want.ref_signed_data() {
+        Some(bytes) => {
+            let ok = key.dnskey.verify(&bytes, rrsig.sig()).is_ok();
+            stats.push(format!("bs.{:?}.{}", key.alg, if ok { "verifies-over-reference" } else { "REJECTED" }));
+            if !ok {
+                fails.push((format!("the built-in signer's signature ({:?}) does not verify over the reference signed data", key.alg), String::new()));
+            }
+        }
+        None => fails.push(("the built-in signer signed an RRset that has no signed data".into(), String::new())),
+    }
+    for (what, recs) in [("", held.clone()), (" (records reversed)", held.iter().rev().cloned().collect::<Vec<_>>())] {
+        if key.dnskey.verify_rrsig(&name, class, &rrsig, recs.iter()).is_err() {
+            fails.push((format!("the built-in signer's RRSIG does not verify with the built-in verifier{what}"), String::new()));
+        }
+    }
+    stats.push(format!("bs.rrset-size.{}", kept.len().min(6)));
+    Some(Out { line, out: "~".into(), fails, stats, nontrivial: true })
+}
+
+/// `bk ALG PUBKEYHEX` — malformed public keys of the supported algorithms (implementation only): decoding and
+/// verification return an error, never accept, never panic
+fn exec_bad_key(t: &[&str]) -> Option<Out> {
+    let [_, alg, pk] = t else { return None };
+    let alg: u8 = alg.parse().ok()?;
+    let pk = unhex(pk)?;
+    let a = Algorithm::from_u8(alg);
+    if !a.is_supported() {
+        return None;
+    }
+    let dnskey = DNSKEY::with_flags(257, hickory_proto::dnssec::PublicKeyBuf::new(pk.clone(), a));
+    let mut fails = vec![];
+    let mut accepted = false;
+    for sig_len in [0usize, 1, 32, 64, 96, 128, 256] {
+        let sig: Vec<u8> = (0..sig_len).map(|i| (i * 7 + alg as usize) as u8).collect();
+        if dnskey.verify(b"signed data", &sig).is_ok() {
+            accepted = true;
+        }
+    }
+    if accepted {
+        fails.push((format!("a made-up signature verifies under the public key {} (algorithm {alg})", hex(&pk)), String::new()));
+    }
+    let _ = dnskey.calculate_key_tag();
+    Some(Out { line: format!("bk {alg} {}", hex(&pk)), out: "~".into(), fails, stats: vec![format!("bk.alg{alg}.refused")], nontrivial: false })
+}
+
+const RSA_PKCS1_PEM: &str = include_str!("/repo/crates/proto/tests/test-data/rsa-2048-pkcs1.pem");
+const RSA_PK8_2: &[u8] = include_bytes!("/repo/crates/proto/tests/test-data/rsa-2048-private-key-2.pk8");
+
+fn pem_to_der(pem: &str) -> Vec<u8> {
+    let b64: String = pem.lines().filter(|l| !l.starts_with("-----")).collect();
+    let mut out = vec![];
+    let (mut acc, mut bits) = (0u32, 0);
+    for c in b64.bytes() {
+        let v = match c {
+            b'A'..=b'Z' => c - b'A',
+            b'a'..=b'z' => c - b'a' + 26,
+            b'0'..=b'9' => c - b'0' + 52,
+            b'+' => 62,
+            b'/' => 63,
+            _ => continue,
+        } as u32;
+        acc = (acc << 6) | v;
+        bits += 6;
+        if bits >= 8 {
+            bits -= 8;
+            out.push((acc >> bits) as u8);
+            acc &= (1 << bits) - 1;
+        }
+    }
+    out
+}
+
+/// `kl` — the key-loading entry points (implementation only): every loader yields the same public key for the same
+/// private key; a key of one algorithm does not load as another; garbage is an error, not a panic
+fn exec_key_loading() -> Option<Out> {
+    use hickory_proto::dnssec::crypto::signing_key_from_der;
+    use rustls_pki_types::{PrivateKeyDer, PrivatePkcs1KeyDer};
+    let mut fails: Vec<(String, String)> = vec![];
+    let mut stats = vec![];
+    let pubkey = |k: &dyn SigningKey| k.to_public_key().ok().map(|p| p.into_inner());
+    for k in sign_keys() {
+        let want = pubkey(&*k.key);
+        let der = PrivateKeyDer::Pkcs8(PrivatePkcs8KeyDer::from(k.pkcs8.clone()));
+        let generic = signing_key_from_der(&der, k.alg);
+        match &generic {
+            Ok(g) => {
+                if pubkey(&**g) != want || g.algorithm() != k.alg {
+                    fails.push((format!("signing_key_from_der yields another key / algorithm than from_pkcs8 ({:?})", k.alg), String::new()));
+                }
+                // both loaders' keys sign, both signatures verify under the DNSKEY
+                for key in [&*k.key, &**g] {
+                    let sig = key.sign(&TBS::from(&b"hickory verification"[..]));
+                    if !sig.map(|s| k.dnskey.verify(b"hickory verification", &s).is_ok()).unwrap_or(false) {
+                        fails.push((format!("a loaded {:?} key does not produce a verifying signature", k.alg), String::new()));
+                    }
+                }
+            }
+            Err(_) => fails.push((format!("signing_key_from_der rejects the {:?} key that from_pkcs8 loads", k.alg), String::new())),
+        }
+        let specific = match k.alg {
+            Algorithm::ED25519 => Ed25519SigningKey::from_key_der(&der).map(|x| pubkey(&x)),
+            Algorithm::ECDSAP256SHA256 | Algorithm::ECDSAP384SHA384 => EcdsaSigningKey::from_key_der(&der, k.alg).map(|x| pubkey(&x)),
+            _ => RsaSigningKey::from_key_der(&der, k.alg).map(|x| pubkey(&x)),
+        };
+        if specific.ok() != Some(want.clone()) {
+            fails.push((format!("from_key_der yields another key than from_pkcs8 ({:?})", k.alg), String::new()));
+        }
+        // the same DER under every other algorithm: an error, or (RSA 256/512 share keys) the same key
+        for other in [Algorithm::ED25519, Algorithm::ECDSAP256SHA256, Algorithm::ECDSAP384SHA384, Algorithm::RSASHA256, Algorithm::RSASHA512, Algorithm::from_u8(5), Algorithm::from_u8(7), Algorithm::from_u8(1), Algorithm::from_u8(253)] {
+            if other == k.alg {
+                continue;
+            }
+            let r = signing_key_from_der(&der, other);
+            let both_rsa = matches!(k.alg, Algorithm::RSASHA256 | Algorithm::RSASHA512) && matches!(other, Algorithm::RSASHA256 | Algorithm::RSASHA512);
+            stats.push(format!("kl.cross.{}", if r.is_ok() { "loaded" } else { "refused" }));
+            if r.is_ok() && !both_rsa {
+                fails.push((format!("a {:?} private key loads as {:?}", k.alg, other), String::new()));
+            }
+        }
+    }
+    // PKCS#1 RSA key: from_pkcs1, from_key_der(Pkcs1), signing_key_from_der(Pkcs1)
+    let p1 = pem_to_der(RSA_PKCS1_PEM);
+    for alg in [Algorithm::RSASHA256, Algorithm::RSASHA512] {
+        let a = RsaSigningKey::from_pkcs1(&PrivatePkcs1KeyDer::from(p1.clone()), alg).ok().and_then(|k| pubkey(&k));
+        let b2 = RsaSigningKey::from_key_der(&PrivateKeyDer::Pkcs1(PrivatePkcs1KeyDer::from(p1.clone())), alg).ok().and_then(|k| pubkey(&k));
+        let c = signing_key_from_der(&PrivateKeyDer::Pkcs1(PrivatePkcs1KeyDer::from(p1.clone())), alg).ok().and_then(|k| pubkey(&*k));
+        stats.push(format!("kl.pkcs1.{}", if a.is_some() { "loaded" } else { "refused" }));
+        if a.is_none() || a != b2 || a != c {
+            fails.push((format!("the PKCS#1 RSA test key does not load the same way through from_pkcs1 / from_key_der / signing_key_from_der ({alg:?})"), String::new()));
+        }
+        if let Ok(k) = RsaSigningKey::from_pkcs1(&PrivatePkcs1KeyDer::from(p1.clone()), alg) {
+            let dnskey = DNSKEY::from_key(&k.to_public_key().ok()?);
+            let sig = k.sign(&TBS::from(&b"pkcs1"[..])).ok()?;
+            if dnskey.verify(b"pkcs1", &sig).is_err() {
+                fails.push(("signature of the PKCS#1-loaded RSA key does not verify".into(), String::new()));
+            }
+        }
+        if RsaSigningKey::from_pkcs1(&PrivatePkcs1KeyDer::from(p1.clone()), Algorithm::from_u8(5)).is_ok() {
+            fails.push(("from_pkcs1 accepts RSASHA1 for signing".into(), String::new()));
+        }
+    }
+    // the type-specific loaders refuse other algorithms and other DER containers (SEC1) with an error
+    {
+        use rustls_pki_types::PrivateSec1KeyDer;
+        let ks = sign_keys();
+        let pk8 = |a: Algorithm| ks.iter().find(|k| k.alg == a).map(|k| k.pkcs8.clone()).unwrap_or_default();
+        let sec1 = || PrivateKeyDer::Sec1(PrivateSec1KeyDer::from(vec![0x30u8, 0x03, 0x02, 0x01, 0x01]));
+        let mut wrongly_ok: Vec<&str> = vec![];
+        for a in [Algorithm::RSASHA256, Algorithm::ED25519, Algorithm::from_u8(5), Algorithm::from_u8(253)] {
+            if EcdsaSigningKey::from_pkcs8(&PrivatePkcs8KeyDer::from(pk8(Algorithm::ECDSAP256SHA256)), a).is_ok() {
+                wrongly_ok.push("EcdsaSigningKey::from_pkcs8 with a non-ECDSA algorithm");
+            }
+            if EcdsaSigningKey::generate_pkcs8(a).is_ok() {
+                wrongly_ok.push("EcdsaSigningKey::generate_pkcs8 with a non-ECDSA algorithm");
+            }
+        }
+        for a in [Algorithm::ED25519, Algorithm::ECDSAP256SHA256, Algorithm::from_u8(5), Algorithm::from_u8(7), Algorithm::from_u8(253)] {
+            if RsaSigningKey::from_pkcs8(&PrivatePkcs8KeyDer::from(RSA_PK8), a).is_ok() {
+                wrongly_ok.push("RsaSigningKey::from_pkcs8 with an algorithm it must not sign with");
+            }
+            if RsaSigningKey::from_pkcs1(&PrivatePkcs1KeyDer::from(p1.clone()), a).is_ok() {
+                wrongly_ok.push("RsaSigningKey::from_pkcs1 with an algorithm it must not sign with");
+            }
+        }
+        if EcdsaSigningKey::from_key_der(&sec1(), Algorithm::ECDSAP256SHA256).is_ok() {
+            wrongly_ok.push("EcdsaSigningKey::from_key_der(SEC1)");
+        }
+        if Ed25519SigningKey::from_key_der(&sec1()).is_ok() {
+            wrongly_ok.push("Ed25519SigningKey::from_key_der(SEC1)");
+        }
+        if RsaSigningKey::from_key_der(&sec1(), Algorithm::RSASHA256).is_ok() {
+            wrongly_ok.push("RsaSigningKey::from_key_der(SEC1)");
+        }
+        for a in [Algorithm::ED25519, Algorithm::ECDSAP256SHA256, Algorithm::RSASHA256] {
+            if signing_key_from_der(&sec1(), a).is_ok() {
+                wrongly_ok.push("signing_key_from_der(SEC1)");
+            }
+        }
+        // freshly generated keys load and sign
+        for a in [Algorithm::ECDSAP256SHA256, Algorithm::ECDSAP384SHA384] {
+            let ok = EcdsaSigningKey::generate_pkcs8(a).ok().and_then(|d| EcdsaSigningKey::from_pkcs8(&d, a).ok()).and_then(|k| {
+                let dnskey = DNSKEY::from_key(&k.to_public_key().ok()?);
+                let sig = k.sign(&TBS::from(&b"generated"[..])).ok()?;
+                dnskey.verify(b"generated", &sig).ok()
+            });
+            if ok.is_none() {
+                fails.push((format!("a freshly generated {a:?} key does not load / sign / verify"), String::new()));
+            }
+        }
+        let ok = Ed25519SigningKey::generate_pkcs8().ok().and_then(|d| Ed25519SigningKey::from_pkcs8(&d).ok()).and_then(|k| {
+            let dnskey = DNSKEY::from_key(&k.to_public_key().ok()?);
+            let sig = k.sign(&TBS::from(&b"generated"[..])).ok()?;
+            dnskey.verify(b"generated", &sig).ok()
+        });
+        if ok.is_none() {
+            fails.push(("a freshly generated ED25519 key does not load / sign / verify".into(), String::new()));
+        }
+        stats.push(format!("kl.refusals.{}", if wrongly_ok.is_empty() { "all-refused" } else { "ACCEPTED" }));
+        for w in wrongly_ok {
+            fails.push((format!("{w} is accepted"), String::new()));
+        }
+    }
+    let k2 = RsaSigningKey::from_pkcs8(&PrivatePkcs8KeyDer::from(RSA_PK8_2), Algorithm::RSASHA256);
+    stats.push(format!("kl.second-rsa-key.{}", if k2.is_ok() { "loaded" } else { "refused" }));
+    // garbage and truncated DER: errors
+    for der in [vec![], vec![0x30, 0x00], RSA_PK8[..100].to_vec(), vec![0xffu8; 64]] {
+        for alg in [Algorithm::ED25519, Algorithm::ECDSAP256SHA256, Algorithm::RSASHA256] {
+            if signing_key_from_der(&PrivateKeyDer::Pkcs8(PrivatePkcs8KeyDer::from(der.clone())), alg).is_ok() {
+                fails.push((format!("garbage DER of {} bytes loads as a {alg:?} key", der.len()), String::new()));
+            }
+        }
+    }
+    Some(Out { line: "kl".into(), out: "~".into(), fails, stats, nontrivial: true })
+}
 
 pub fn exec(line: &str, rec: &mut Recorder) {
     let t: Vec<&str> = line.split_whitespace().collect();
@@ -626,6 +924,15 @@ fn exec_inner(t: &[&str]) -> Option<Out> {
     }
     if t[0] == "xv" {
         return exec_external_vector(t);
+    }
+    if t[0] == "kl" {
+        return exec_key_loading();
+    }
+    if t[0] == "bs" {
+        return exec_builtin_signer(t);
+    }
+    if t[0] == "bk" {
+        return exec_bad_key(t);
     }
     if !["tbs", "spec", "class", "sv"].contains(&t[0]) {
         return None;
@@ -1385,6 +1692,14 @@ fn emit_case(c: &Case, rec: &mut Recorder, with_rdata: bool) {
     for op in ["tbs", "spec", "class", "sv"] {
         exec(&format!("{op} {args}"), rec);
     }
+    // the built-in signer entry point, with a key and a signature duration derived from the case
+    let ki = (c.tag as usize) % 5;
+    let dur = [0u32, 1, 3600, 86400 * 30, 0x7FFF_FFFF][(c.exp as usize) % 5];
+    let mut cs = c.clone();
+    cs.inc %= 0x7000_0000;
+    if let Some(a) = cs.args() {
+        exec(&format!("bs {ki} {dur} {a}"), rec);
+    }
     if with_rdata {
         for r in c.rrset().iter().take(3) {
             if let Some(t) = r.rd.tok(r.rtype) {
@@ -1402,6 +1717,29 @@ pub fn run(o: &Opts, rec: &mut Recorder) {
     rec.corpus_cases = rec.cases.len();
     if o.replay_only {
         return;
+    }
+    exec("kl", rec);
+    // malformed public keys of every supported algorithm
+    {
+        let mut kr = Rng::new(5051);
+        for alg in [5u8, 7, 8, 10, 13, 14, 15] {
+            for len in [0usize, 1, 2, 3, 4, 31, 32, 33, 63, 64, 65, 95, 96, 97, 128, 131, 259, 260] {
+                let mut pk = kr.bytes(len);
+                if len >= 3 && kr.chance(1, 2) {
+                    pk[0] = *kr.pick(&[0u8, 1, 3, 4, 255]); // RFC 3110 exponent length octet
+                }
+                exec(&format!("bk {alg} {}", hex(&pk)), rec);
+            }
+        }
+        for k in sign_keys() {
+            let pk = k.dnskey.public_key().clone().into_inner();
+            for cut in [1usize, 2, pk.len() / 2] {
+                exec(&format!("bk {} {}", u8::from(k.alg), hex(&pk[..pk.len() - cut])), rec);
+            }
+            let mut longer = pk.clone();
+            longer.push(0);
+            exec(&format!("bk {} {}", u8::from(k.alg), hex(&longer)), rec);
+        }
     }
     for c in hand_built() {
         emit_case(&c, rec, true);
